@@ -23,7 +23,7 @@ MANIFEST = {
              '(each is an invariant of the search history). The claim is "these parts are as the property needs them".'),
 }
 EXPLANATION = 'Unsafe inventory + premise dominance for the sentinel scans + structural completeness facts of run_dispatch.'
-RULES = ['C05-1.unsafe', 'C05-1.premises', 'C05-2.complete', 'C05-3.timedpath', 'C05-4.times', 'C05-5.index', 'C05-6.cursor', 'C05-7.blocking', 'C05-8.queue', 'C05-9.divnodes', 'C05-10.esttimes']
+RULES = ['C05-1.unsafe', 'C05-1.premises', 'C05-2.complete', 'C05-3.timedpath', 'C05-4.times', 'C05-5.index', 'C05-6.cursor', 'C05-7.blocking', 'C05-8.queue', 'C05-9.divnodes', 'C05-10.esttimes', 'C05-11.blocked']
 ASSUMPTIONS = ['the sentinel index passed by callers is the one the scan was designed for (not decided)']
 
 # reviewed unsafe sites: function -> number of unchecked accesses (DESIGN A.3; 14 in total)
@@ -50,7 +50,7 @@ def run(ctx):
     # route-faithful (every clause of C15) is necessary for 'contiguous' and 'never faster than the free-running times'
     from . import C15
     C15.run(RuleProxy(ctx, {k: 'C05-10.esttimes' for k in C15.RULES}))
-    C04.run(RuleProxy(ctx, {'C04-0.start': 'C05-4.times', 'C04-4.entry': 'C05-4.times', 'C04-6.clear': 'C05-4.times', 'C04-7.occupancy': 'C05-4.times', 'C04-8.index': 'C05-5.index'}))
+    C04.run(RuleProxy(ctx, {'C04-0.start': 'C05-4.times', 'C04-4.entry': 'C05-4.times', 'C04-6.clear': 'C05-4.times', 'C04-7.occupancy': 'C05-4.times', 'C04-8.index': 'C05-5.index', 'C04-9.blocked': 'C05-11.blocked'}))
 
 
 def unsafe_inventory(ctx):
